@@ -283,7 +283,9 @@ fn seeded_ops(seed: u64, n: usize, big: bool, icomp: Option<Compression>) -> Str
     ops.extend(add_ops(&l, &mut rng, true));
     ops.join(";")
 }
-/// distinct, incompressible-ish entries: forces leaf directories for every codec
+/// distinct, incompressible-ish entries: forces leaf directories for every codec.  About a third of the entries are
+/// runs of 2-4 tiles sharing one content, and the entries that end a 4096-entry leaf always are (a pointer must
+/// start after the whole run that precedes it).
 fn seeded_spill_ops(seed: u64, n: usize, icomp: Compression) -> String {
     let mut rng = Rng::new(seed);
     let mut ops = vec![format!("c:{}", comp_tok(icomp))];
@@ -292,8 +294,12 @@ fn seeded_spill_ops(seed: u64, n: usize, icomp: Compression) -> String {
         let len = 1 + (rng.next() % 3) as usize;
         let mut c = rng.bytes(len);
         c.extend_from_slice(&(i as u32).to_le_bytes());
-        ops.push(format!("a:{id:x}:{}", hex_bytes(&c)));
-        id += 1 + rng.spread(if icomp == Compression::None { 3 } else { 30 });
+        let run = if i % 4096 == 4095 { 2 + rng.below(3) } else if rng.below(3) == 0 { 2 + rng.below(3) } else { 1 };
+        let hc = hex_bytes(&c);
+        for k in 0..run {
+            ops.push(format!("a:{:x}:{hc}", id + k));
+        }
+        id += run + rng.spread(if icomp == Compression::None { 3 } else { 30 });
     }
     ops.join(";")
 }
